@@ -287,3 +287,85 @@ def reencodeStoreOk (bytes : List UInt8) : Bool :=
   storeBytes (openStore bytes).groupSpecs == bytes
 
 end TantivyModel.SSTable
+
+namespace TantivyModel.SSTable
+open TantivyModel
+
+/-! ### `find_best_slope` (v3.rs) mirrored -/
+
+structure SlopeAcc where
+  minIdx : Nat := 1
+  minVal : Nat := 0
+  minSlope : Nat := 4294967295
+  maxIdx : Nat := 1
+  maxVal : Nat := 0
+  maxSlope : Nat := 0
+
+/-- one iteration of the first loop of find_best_slope (`slope = (value / index) as u32`) -/
+def slopeStep (a : SlopeAcc) (e : Nat × Nat) : SlopeAcc :=
+  let slope := (e.2 / e.1) % 4294967296
+  let a1 : SlopeAcc :=
+    if slope ≤ a.minSlope then { a with minSlope := slope, minIdx := e.1, minVal := e.2 } else a
+  if slope ≥ a1.maxSlope then { a1 with maxSlope := slope, maxIdx := e.1, maxVal := e.2 } else a1
+
+def maxDeviation (slope : Nat) (els : List (Nat × Nat)) : Nat :=
+  (els.map (fun e => deviation slope e.1 e.2)).foldl max 0
+
+/-- mirrors: tantivy_bitpacker::compute_num_bits (with its 56-bit cut-off) -/
+def computeNumBits (n : Nat) : Nat := if numBits n ≤ 56 then numBits n else 64
+
+/-- mirrors: v3.rs::find_best_slope — the slope through the "lowest" and "highest" points, rounded,
+and the width of the largest deviation plus one -/
+def findBestSlope (els : List (Nat × Nat)) : Nat × Nat :=
+  let a := els.foldl slopeStep {}
+  let den := a.minIdx + a.maxIdx
+  let slope := ((a.minVal + a.maxVal + den / 2) / den) % 4294967296
+  (slope, computeNumBits (maxDeviation slope els) + 1)
+
+/-- elements `flush_block` passes for the start offsets: blocks 1.. and the final end -/
+def rangeEls (ref : BlockAddr) (more : List BlockAddr) (lastStop : Nat) : List (Nat × Nat) :=
+  (more.zipIdx 1).map (fun p => (p.2, p.1.start - ref.start)) ++ [(more.length + 1, lastStop - ref.start)]
+
+/-- elements `flush_block` passes for the first ordinals: blocks 1.. -/
+def ordEls (ref : BlockAddr) (more : List BlockAddr) : List (Nat × Nat) :=
+  (more.zipIdx 1).map (fun p => (p.2, p.1.firstOrd - ref.firstOrd))
+
+/-- the store block exactly as `flush_block` parametrises it -/
+def mkGroup (ref : BlockAddr) (more : List BlockAddr) (lastStop : Nat) : GroupSpec :=
+  let r := findBestSlope (rangeEls ref more lastStop)
+  let o := findBestSlope (ordEls ref more)
+  ⟨r.1, r.2, o.1, o.2, ref, more, lastStop⟩
+
+/-- the store blocks of a decoded store re-parametrised by the model's own `find_best_slope` -/
+def Store.writerSpecs (s : Store) : List GroupSpec :=
+  s.groupSpecs.map (fun g => mkGroup g.ref g.more g.lastStop)
+
+/-- the whole store region re-serialised with the model's own slopes and widths = the file bytes -/
+def reencodeStoreOwnOk (bytes : List UInt8) : Bool :=
+  storeBytes (openStore bytes).writerSpecs == bytes
+
+/-! ### the whole store as the writer lays it out -/
+
+/-- mirrors: BlockAddrStoreWriter::write_block_meta + serialize — addresses are buffered, a store
+block is flushed every `n = STORE_BLOCK_LEN` addresses, the rest at the end -/
+def chunksOf {α} (n : Nat) : Nat → List α → List (List α)
+  | 0, _ => []
+  | fuel + 1, l =>
+    match l with
+    | [] => []
+    | a :: r => (a :: r).take n :: chunksOf n fuel ((a :: r).drop n)
+
+/-- mirrors: flush_block — the first buffered address is the reference, the final end is the end
+of the last buffered address, slopes and widths from `find_best_slope` -/
+def groupOfChunk : List BlockAddr → GroupSpec
+  | [] => ⟨0, 0, 0, 0, ⟨0, 0, 0⟩, [], 0⟩
+  | ref :: more => mkGroup ref more (more.getLast?.getD ref).stop
+
+def writerStore (addrs : List BlockAddr) : List GroupSpec :=
+  (chunksOf Gen.STORE_BLOCK_LEN addrs.length addrs).map groupOfChunk
+
+/-- the store region rebuilt from nothing but the decoded address list = the file bytes -/
+def rebuildStoreOk (bytes : List UInt8) : Bool :=
+  storeBytes (writerStore (openStore bytes).all) == bytes
+
+end TantivyModel.SSTable
